@@ -33,7 +33,7 @@ TIMEOUT = {'quick': 900, 'thorough': 7200}
 
 POSITIONS = ('top', 'index', 'range-bound', 'set-element', 'function-argument', 'quantifier-domain',
              'quantifier-body', 'nested-arith')
-FAULTS = ('unknown-field', 'field-as-array', 'array-as-message', 'type-mismatch', 'index-out-of-range')
+FAULTS = ('unknown-field', 'field-as-array', 'array-as-message', 'type-mismatch', 'index-out-of-range', 'number-as-compound')
 ERRORS = ('TypeError', 'IndexError', 'HplSanityError', 'KeyError')
 
 
@@ -77,6 +77,10 @@ def numeric_reference(rng, fault, root, n, sch, position=None):
             # set elements are only required to be primitive: a primitive field of another kind is no mismatch
             return gen.pick(rng, (F(f'qa{n}'), F(f'qm{n}'))), None
         return gen.pick(rng, (F(f'qs{n}'), F(f'qb{n}'), F(f'qa{n}'), F(f'qm{n}'))), None
+    if fault == 'number-as-compound':
+        # the reference under test is a declared number; place() is by-passed: the atom itself needs a collection or
+        # a message there (one-argument max/min/gcd, len, sum, membership, roll/pitch/yaw)
+        return F(f'qn{n}'), f'qn{n}'
     if fault == 'index-out-of-range':
         k = flen + rng.choice((0, 0, 1, 5))
         spelling = gen.pick(rng, (str(k), str(k), f'{k}.0', f'{k}e0', f'{k}.'))  # any NUMBER literal is a literal index
@@ -172,6 +176,9 @@ def run(ctx):
         if other_array is not None and position == 'index':
             ctx.count('index_across_roots')
         atom = place(rng, position, ref, root, n, other_array)
+        if fault == 'number-as-compound':
+            fn = gen.pick(rng, ('max', 'min', 'gcd', 'len', 'sum', 'prod', 'roll', 'pitch', 'yaw', 'in'))
+            atom = ('bin', 'in', A.num('1'), ref) if fn == 'in' else ('bin', '>', ('call', fn, (ref,)), A.num('0'))
         weak_first = rng.random() < 0.3
         if weak_first:
             # an earlier occurrence of the same path in a context that constrains it to PRIMITIVE only: the fault
@@ -219,6 +226,12 @@ def run(ctx):
                 if not getattr(se.predicate, 'is_vacuous', False):
                     my_faults += SC.check_expression(se.predicate.condition, schemas[str(se.name)], all_aliases, br)
         expected_fail = bool(my_faults)
+        if fault == 'number-as-compound' and not expected_fail:
+            # the model reads the type sets hpl stored in the tree; for this fault the expectation does not depend on
+            # them: a declared number is no collection and no message, whatever was inferred for the argument
+            ctx.count('injection_overrides_model')
+            my_faults = [f'declared number {needle} used where a collection or message is required']
+            expected_fail = True
         if (fault is not None) != expected_fail:
             ctx.count('harness_disagrees_with_injection')
             ctx.skip(f'model-and-injection-disagree:{fault}@{position}')
